@@ -129,6 +129,8 @@ def execute(rec, timeout=30):
                 m2, err = guarded(lambda: m.refined(int(arg)), timeout)
             else:
                 marked = np.array([a for a in arg if a < m.t.shape[1]], dtype=np.int32)
+                if rec.get('marked_as') == 'list':
+                    marked = [int(a) for a in marked]          # the documented alternative: a plain list of indices
                 m2, err = guarded(lambda: m.refined(marked), timeout)
         finally:
             logger.removeHandler(cap)
